@@ -26,6 +26,7 @@ fn uq(sql: &str) -> Unit {
 
 pub const PROGRAMS: &[&str] = &[
     "opentxn", "failedtxn", "set", "setrole", "prepare", "namedparse", "halfbatch", "copyin", "setext", "named-in-txn", "hangstmt",
+    "setrole-then-txn", "set-then-txn", "prepare-in-failedtxn", "named-in-failedtxn",
 ];
 
 /// (units, natural ending units)
@@ -81,6 +82,39 @@ pub fn victim_units(prog: &str) -> (Vec<Unit>, Vec<Unit>) {
             ],
             vec![uq(&format!("COMMIT /*{}*/", t(0, 2)))],
         ),
+        "setrole-then-txn" => (
+            vec![
+                uq(&format!("SET ROLE bob /*{}*/", t(0, 0))),
+                uq(&format!("BEGIN /*{}*/", t(1, 0))),
+                uq(&format!("SELECT 1 /*{}*/", t(1, 1))),
+            ],
+            vec![uq(&format!("COMMIT /*{}*/", t(1, 2)))],
+        ),
+        "set-then-txn" => (
+            vec![
+                uq(&format!("SET statement_timeout TO 4242 /*{}*/", t(0, 0))),
+                uq(&format!("BEGIN /*{}*/", t(1, 0))),
+                uq(&format!("SELECT 1 /*{}*/", t(1, 1))),
+            ],
+            vec![uq(&format!("COMMIT /*{}*/", t(1, 2)))],
+        ),
+        "prepare-in-failedtxn" => (
+            vec![
+                uq(&format!("BEGIN /*{}*/", t(0, 0))),
+                uq(&format!("PREPARE p2 AS SELECT 2 /*{}*/", t(0, 1))),
+                uq(&format!("SELECT ERR! /*{}*/", t(0, 2))),
+            ],
+            vec![uq(&format!("ROLLBACK /*{}*/", t(0, 3)))],
+        ),
+        "named-in-failedtxn" => (
+            vec![
+                uq(&format!("BEGIN /*{}*/", t(0, 0))),
+                u(wire::parse("s3", &format!("SELECT 3 /*{}*/", t(0, 1)), &[]), "P s3", 0),
+                u(wire::sync(), "S", b'Z'),
+                uq(&format!("SELECT ERR! /*{}*/", t(0, 2))),
+            ],
+            vec![uq(&format!("ROLLBACK /*{}*/", t(0, 3)))],
+        ),
         "hangstmt" => (
             vec![uq(&format!("BEGIN /*{}*/", t(0, 0))), u(wire::query(&format!("SELECT HANG! /*{}*/", t(0, 1))), "Q SELECT HANG!", 0)],
             vec![],
@@ -94,7 +128,7 @@ pub const ENDINGS: &[&str] = &[
 ];
 
 /// Build the scenario; `cut` = (unit index, byte offset). offset 0 = at the message boundary before that unit.
-pub fn scenario(cache: usize, prog: &str, cut: (usize, usize), ending: &str, second_victim: Option<&str>) -> Option<Scenario> {
+pub fn scenario(mode: &str, cache: usize, prog: &str, cut: (usize, usize), ending: &str, second_victim: Option<&str>) -> Option<Scenario> {
     let (units, natural) = victim_units(prog);
     let (k, off) = cut;
     if k > units.len() || (k == units.len() && off != 0) {
@@ -113,14 +147,14 @@ pub fn scenario(cache: usize, prog: &str, cut: (usize, usize), ending: &str, sec
     }
     if ending == "idle-timeout" {
         // only meaningful while the server is held waiting for the client
-        if !(prog == "opentxn" || prog == "failedtxn" || prog == "named-in-txn" || prog == "copyin" || prog == "halfbatch") || k == 0 {
+        if !(prog.contains("txn") || prog == "copyin" || prog == "halfbatch") || k == 0 {
             return None;
         }
     }
     if ending == "bind-unknown" && cache == 0 {
         return None;
     }
-    let mut pool = PoolCfg::simple("db", "transaction", 1, 1, 0);
+    let mut pool = PoolCfg::simple("db", mode, 1, 1, 0);
     pool.extra = format!("prepared_statements_cache_size = {}\n", cache);
     if ending == "stmt-timeout" || prog == "hangstmt" {
         pool.users[0].extra = "statement_timeout = 2000\n".into();
@@ -162,6 +196,9 @@ pub fn scenario(cache: usize, prog: &str, cut: (usize, usize), ending: &str, sec
                 if un.wait == b'Z' {
                     s = s.expect_z();
                 }
+            }
+            if mode == "session" {
+                s = s.send(wire::terminate(), "X");
             }
         }
         "terminate" => s = s.send(wire::terminate(), "X"),
@@ -218,7 +255,8 @@ pub fn scenario(cache: usize, prog: &str, cut: (usize, usize), ending: &str, sec
     actors.push(obs.actor());
     Some(Scenario {
         name: format!(
-            "C02 cache={} prog={} cut={}.{} end={}{}",
+            "C02 mode={} cache={} prog={} cut={}.{} end={}{}",
+            mode,
             cache,
             prog,
             k,
@@ -296,7 +334,8 @@ pub fn oracle(sc: &Scenario, out: &Outcome) -> Vec<Violation> {
     let prog = scenario_field(&sc.name, "prog=");
     let ending = scenario_field(&sc.name, "end=");
     let oi = sc.actors.len() - 1;
-    let ctx = format!("prog={}:end={}:cache={}", prog, ending, if caching { "on" } else { "off" });
+    let mode = scenario_field(&sc.name, "mode=");
+    let ctx = format!("prog={}:end={}:cache={}{}", prog, ending, if caching { "on" } else { "off" }, if mode == "session" { ":session" } else { "" });
 
     // hand-over points: first message of a client on a connection last used by another client
     for conn in conn_ids(log) {
@@ -399,8 +438,13 @@ pub fn build(tier: &str) -> SimCheck {
                 }
                 for off in offs {
                     for ending in ENDINGS {
-                        if let Some(sc) = scenario(cache, prog, (k, off), ending, None) {
+                        if let Some(sc) = scenario("transaction", cache, prog, (k, off), ending, None) {
                             scenarios.push(sc);
+                        }
+                        if off == 0 || thorough {
+                            if let Some(sc) = scenario("session", cache, prog, (k, off), ending, None) {
+                                scenarios.push(sc);
+                            }
                         }
                     }
                 }
@@ -415,7 +459,7 @@ pub fn build(tier: &str) -> SimCheck {
             for k in 1..=units.len() {
                 for ending in ["harddrop", "fin", "bad-close", "terminate"] {
                     for p2 in seconds {
-                        if let Some(sc) = scenario(cache, prog, (k, 0), ending, Some(p2)) {
+                        if let Some(sc) = scenario("transaction", cache, prog, (k, 0), ending, Some(p2)) {
                             scenarios.push(sc);
                         }
                     }
@@ -473,7 +517,7 @@ fn midreply_scenarios(thorough: bool) -> Vec<Scenario> {
                     .terminate()
                     .actor();
                 out.push(Scenario {
-                    name: format!("C02 cache={} prog={} cut=midreply end={:?}", cache, prog, kind).to_lowercase().replace("c02", "C02"),
+                    name: format!("C02 mode=transaction cache={} prog={} cut=midreply end={:?}", cache, prog, kind).to_lowercase().replace("c02", "C02"),
                     toml: cfg.toml(),
                     alt_tomls: vec![],
                     servers,
